@@ -181,6 +181,79 @@ pub fn run_generic(id: &str, tier: Tier) -> i32 {
             replay: Box::new(|st: &Star, _f: &Failure| json!({"kind": "event-star", "centre": [st.centre.0, st.centre.1], "spokes": st.spokes.iter().map(|s| json!([s.0, s.1, s.2])).collect::<Vec<_>>()})),
         };
         run_plans("C15", seed, &[plan], &mut out.stats, &mut out.violations);
+        // class-drawn integer segment pairs (T-contacts, common endpoints, collinear; coordinates up to 2^25)
+        use crate::props::segpair::{integer_strategy, pair_to_json, SegPair};
+        let plan2 = Plan::<SegPair> {
+            name: "segment-pair-events",
+            cases: tier.pick(60_000, 3_000_000),
+            strategy: Box::new(integer_strategy),
+            eval: Box::new(|d: &SegPair, want: bool| {
+                use std::hash::{Hash, Hasher};
+                let mut obs = Obs::default();
+                let r = crate::exec::guarded(u64::MAX, || crate::props::stage::check_segpair_order(d, &mut obs));
+                let result = match r {
+                    Ok(r) => r,
+                    Err(p) => Err(Failure::new("panic", format!("ordering panicked at {}:{}: {}", p.file, p.line, p.message))),
+                };
+                let mut h = std::collections::hash_map::DefaultHasher::new();
+                format!("{:?}", d).hash(&mut h);
+                Eval { obs, result, digest: h.finish(), family: "segment-pair-events", sample: if want { Some(pair_to_json(d)) } else { None }, skip: None }
+            }),
+            replay: Box::new(|d: &SegPair, _f: &Failure| {
+                let mut v = pair_to_json(d);
+                v["kind"] = json!("segment-pair-order");
+                v
+            }),
+        };
+        if out.violations.is_empty() {
+            run_plans("C15", seed, &[plan2], &mut out.stats, &mut out.violations);
+        }
+        // float segment pairs in nearly degenerate position (ordering must follow the exact orientation)
+        let plan3 = Plan::<SegPair> {
+            name: "near-collinear-float-pairs",
+            cases: tier.pick(60_000, 3_000_000),
+            strategy: Box::new(crate::props::stage::near_collinear_strategy),
+            eval: Box::new(|d: &SegPair, want: bool| {
+                use std::hash::{Hash, Hasher};
+                let mut obs = Obs::default();
+                let r = crate::exec::guarded(u64::MAX, || crate::props::stage::check_segpair_order(d, &mut obs));
+                let result = match r {
+                    Ok(r) => r,
+                    Err(p) => Err(Failure::new("panic", format!("ordering panicked at {}:{}: {}", p.file, p.line, p.message))),
+                };
+                let mut h = std::collections::hash_map::DefaultHasher::new();
+                format!("{:?}", d).hash(&mut h);
+                Eval { obs, result, digest: h.finish(), family: "near-collinear-float-pairs", sample: if want { Some(pair_to_json(d)) } else { None }, skip: None }
+            }),
+            replay: Box::new(|d: &SegPair, _f: &Failure| {
+                let mut v = pair_to_json(d);
+                v["kind"] = json!("segment-pair-order");
+                v
+            }),
+        };
+        if out.violations.is_empty() {
+            run_plans("C15", seed, &[plan3], &mut out.stats, &mut out.violations);
+        }
+    }
+    if id == "C10" && out.violations.is_empty() {
+        // "every guarantee above" includes the pairwise intersection step: C16's oracle with the step executed in f32
+        use crate::props::segpair::*;
+        let plan = |name: &'static str, cases: u64, strat: fn() -> proptest::strategy::BoxedStrategy<SegPair>| Plan::<SegPair> {
+            name,
+            cases,
+            strategy: Box::new(strat),
+            eval: Box::new(|d: &SegPair, s: bool| {
+                let mut e = eval_pair(d, s);
+                e.family = if d.integer { "f32-integer-segment-pairs" } else { "f32-float-segment-pairs" };
+                e
+            }),
+            replay: Box::new(|d: &SegPair, _f: &Failure| pair_to_json(d)),
+        };
+        let plans = vec![
+            plan("f32-integer-segment-pairs", tier.pick(60_000, 3_000_000), || integer_strategy_lim(1024, true)),
+            plan("f32-float-segment-pairs", tier.pick(40_000, 2_000_000), || float_strategy(true)),
+        ];
+        run_plans("C10", seed, &plans, &mut out.stats, &mut out.violations);
     }
     write_evidence(id, tier, seed, spec.rule, &spec.assumptions, &out, t0.elapsed().as_secs_f64(), false);
     finish(id, &out)
@@ -223,6 +296,24 @@ pub fn replay(path: &str) -> i32 {
                 }
             };
         }
+        Some("segment-pair-order") => {
+            let d = match crate::props::segpair::pair_from_json(&v) {
+                Some(d) => d,
+                None => return 2,
+            };
+            let mut obs = Obs::default();
+            return match crate::props::stage::check_segpair_order(&d, &mut obs) {
+                Ok(()) => {
+                    println!("replay {}: property C15 holds on this segment pair", path);
+                    0
+                }
+                Err(f) => {
+                    println!("VIOLATION property=C15 replay={}", path);
+                    println!("  clause: {}\n  detail: {}", f.clause, f.detail);
+                    1
+                }
+            };
+        }
         Some("segment-pair") => {
             let d = match crate::props::segpair::pair_from_json(&v) {
                 Some(d) => d,
@@ -231,14 +322,15 @@ pub fn replay(path: &str) -> i32 {
                     return 2;
                 }
             };
+            let pid = v.get("property").and_then(|p| p.as_str()).unwrap_or("C16").to_string();
             let e = crate::props::segpair::eval_pair(&d, false);
             return match e.result {
                 Ok(()) => {
-                    println!("replay {}: property C16 holds on this pair (classes {:?}, counters {:?})", path, e.obs.classes, e.obs.counters);
+                    println!("replay {}: property {} holds on this pair (classes {:?}, counters {:?})", path, pid, e.obs.classes, e.obs.counters);
                     0
                 }
                 Err(f) => {
-                    println!("VIOLATION property=C16 replay={}", path);
+                    println!("VIOLATION property={} replay={}", pid, path);
                     println!("  clause: {}\n  detail: {}", f.clause, f.detail);
                     1
                 }
@@ -353,7 +445,7 @@ pub fn run_c17(tier: Tier) -> i32 {
     let t0 = Instant::now();
     let mut stats = Stats::default();
     let mut violations = Vec::new();
-    let rule = "(1) exhaustive: breadth-first over every splay tree reachable over the key universe {0..K-1} (K=6 quick, 7 thorough; state identity = Debug rendering), from every state every operation (insert/remove/get/find_key/next/prev/contains/get_mut, then min/max/len and the in-order keys) with every key of the universe plus one key below and one above, every consuming iteration direction pattern (full and half consumed, then dropped) and clear; (2) random histories of 1..400 operations on SplayTree<i32,Box<i32>> and SplaySet<i32> with three consistent comparators, compared step by step with BTreeMap, ending in drop / forward / backward / mixed / partial consuming iteration; held references re-read after further lookups and compared by address. Non-trivial history: contains the removal of a key with both neighbours present (node with two children at the root), a miss after lookups restructured a non-empty tree, or a mixed-direction iteration over >= 3 elements. Distinct: hash of the history.";
+    let rule = "(1) exhaustive: breadth-first over every splay tree reachable over the key universe {0..K-1} (K=6 quick, 7 thorough; state identity = Debug rendering), from every state every operation (insert/remove/get/find_key/next/prev/contains/get_mut, then min/max/len and the in-order keys) with every key of the universe plus one key below and one above, every consuming iteration direction pattern (full and half consumed, then dropped) and clear; (2) random histories of 1..400 operations on SplayTree<i32,Box<i32>> and SplaySet<i32> with three consistent comparators, compared step by step with BTreeMap, ending in drop / forward / backward / mixed / partial consuming iteration; held references re-read after further lookups and compared by address; every history is run a second time with keys (key, tag) ordered by key only, where each key handed out must carry the tag of the insertion that created the entry (a sorted map does not replace the key it holds). Non-trivial history: contains the removal of a key with both neighbours present (node with two children at the root), a miss after lookups restructured a non-empty tree, or a mixed-direction iteration over >= 3 elements. Distinct: hash of the history.";
     // pinned regression histories
     for (path, v) in pinned_files("regress", "C17") {
         if let Some(h) = v.get("history").and_then(|h| h.as_str()).and_then(splay::history_from_text) {
@@ -395,7 +487,7 @@ pub fn run_c17(tier: Tier) -> i32 {
             eval: Box::new(|h: &splay::History, s: bool| splay::eval_history(h, s)),
             replay: Box::new(|h: &splay::History, _f: &Failure| splay::history_to_json(h)),
         };
-        let plans = vec![mk("short-histories", tier.pick(12_000, 600_000), 40), mk("long-histories", tier.pick(4_000, 200_000), 400)];
+        let plans = vec![mk("short-histories", tier.pick(48_000, 2_000_000), 40), mk("long-histories", tier.pick(12_000, 400_000), 400)];
         run_plans("C17", seed, &plans, &mut stats, &mut violations);
     }
     let out = Outcome { violations, known_lines: vec![], stats, extra };
@@ -615,6 +707,9 @@ pub fn run_c16(tier: Tier) -> i32 {
             match e.result {
                 Err(f) => violations.push(Violation { replay: path, clause: f.clause, detail: format!("a known-finding input fails with a different signature: {}", f.detail) }),
                 Ok(()) => {
+                    if e.obs.counters.iter().any(|c| c.0 == "known_signature_hits_N3") {
+                        known_lines.push(format!("N3 the pairwise step takes float segments that are collinear only within rounding for overlapping ones and cuts them at points off the segments, here producing a zero-length piece (input {})", path));
+                    }
                     if e.obs.counters.iter().any(|c| c.0 == "known_signature_hits_N2") {
                         known_lines.push(format!("N2 divide_segment corner case 1 moves the division point of one of the two segments one ulp to the right, so the two segments are split at different points (input {})", path));
                     }
@@ -629,14 +724,14 @@ pub fn run_c16(tier: Tier) -> i32 {
     }
     if violations.is_empty() {
         let plans = vec![
-            plan("integer-by-class", tier.pick(120_000, 12_000_000), integer_strategy),
-            plan("float-f64", tier.pick(60_000, 6_000_000), || float_strategy(false)),
-            plan("float-f32", tier.pick(30_000, 3_000_000), || float_strategy(true)),
+            plan("integer-by-class", tier.pick(600_000, 20_000_000), integer_strategy),
+            plan("float-f64", tier.pick(300_000, 10_000_000), || float_strategy(false)),
+            plan("float-f32", tier.pick(150_000, 5_000_000), || float_strategy(true)),
         ];
         run_plans("C16", seed, &plans, &mut stats, &mut violations);
     }
     let out = Outcome { violations, known_lines, stats, extra: json!({}) };
-    write_evidence("C16", tier, seed, rule, &["integer family: all intermediate products of the library are exact below 2^25, so the classification clauses are demanded exactly", "float family: only containment in both bounding boxes, common split point, link/flag clauses, and detection with a margin of 1e-9*magnitude (f32: 1e-4) are demanded", "split points that differ with the exact shape of the recorded finding N2 (equal y, x one ulp apart, smaller x = left x of the bumped segment, y below it) are counted under known_signature_hits_N2 and not reported"], &out, t0.elapsed().as_secs_f64(), false);
+    write_evidence("C16", tier, seed, rule, &["integer family: all intermediate products of the library are exact below 2^25, so the classification clauses are demanded exactly", "float family: only containment in both bounding boxes, common split point, link/flag clauses, and detection with a margin of 1e-9*magnitude (f32: 1e-4) are demanded", "float family: when the step returns 2 or 3 (overlap arm) although the segments are not exactly collinear, the outcome is counted under known_signature_hits_N3 (recorded finding) and not judged", "split points that differ with the exact shape of the recorded finding N2 (equal y, x one ulp apart, smaller x = left x of the bumped segment, y below it) are counted under known_signature_hits_N2 and not reported"], &out, t0.elapsed().as_secs_f64(), false);
     finish("C16", &out)
 }
 
@@ -682,7 +777,7 @@ fn c03_known(stats: &mut Stats, violations: &mut Vec<Violation>, known_lines: &m
 pub fn c03_big_scenarios(tier: Tier) -> Vec<crate::props::big::Scenario> {
     use crate::props::big::Scenario;
     let mut v = Vec::new();
-    let n = tier.pick(50_000, 250_000);
+    let n = tier.pick(250_000, 250_000);
     for shape in 0..3 {
         for corner in 0..4 {
             for op in 0..4 {
@@ -716,7 +811,7 @@ fn c03_common(tier: Tier, seed: u64, stats: &mut Stats, violations: &mut Vec<Vio
         violations.push(Violation { replay: p, clause: f.clause, detail: f.detail });
     }
     if violations.is_empty() {
-        let families = props::pair_families(tier, 48_000, 2_400_000, true, false);
+        let families = props::pair_families(tier, 96_000, 4_800_000, true, false);
         let check: Box<CheckFn> = Box::new(c03_case);
         run_random("C03", seed, &families, &*check, stats, violations);
     }
